@@ -180,8 +180,8 @@ Qed.
 
 Lemma insert_desc_desc {A} : forall (x : nat * A) l, desc l -> (forall y, In y l -> fst y <> fst x) -> desc (insert_desc x l).
 Proof.
-  induction l as [|z l IH]; intros Hd Hne; cbn.
-  - split; [intros y []|exact I].
+  induction l as [|z l IH]; intros Hd Hne; cbn [insert_desc].
+  - cbn. split; [intros y []|exact I].
   - simpl in Hd. destruct Hd as [Hlt Hd]. destruct (Nat.ltb (fst x) (fst z)) eqn:E.
     + apply Nat.ltb_lt in E. cbn. split.
       * intros y Hy. apply in_insert_desc in Hy. destruct Hy as [->|Hy]; [assumption|apply Hlt; assumption].
@@ -195,14 +195,16 @@ Qed.
 
 Lemma sort_desc_desc {A} : forall (l : list (nat * A)), NoDup (map fst l) -> desc (sort_desc l).
 Proof.
-  induction l as [|x l IH]; intros H; cbn; [exact I|]. inversion H as [|? ? Hnin Hnd]; subst.
-  apply insert_desc_desc; [apply IH; assumption|].
-  intros y Hy E. apply in_sort_desc in Hy. apply Hnin. rewrite <- E. apply in_map. assumption.
+  induction l as [|x l IH]; intros H.
+  - exact I.
+  - simpl in H. apply NoDup_cons_iff in H. destruct H as [Hnin Hnd]. simpl sort_desc. apply insert_desc_desc.
+    + apply IH. exact Hnd.
+    + intros y Hy E. apply (proj1 (in_sort_desc l y)) in Hy. apply Hnin. rewrite <- E. apply in_map. assumption.
 Qed.
 
 Lemma find_axis_in {A} : forall (l : list (nat * A)) m c, NoDup (map fst l) -> In (m, c) l -> find_axis m l = Some c.
 Proof.
-  induction l as [|[a x] l IH]; intros m c H Hin; [destruct Hin|]. inversion H as [|? ? Hnin Hnd]; subst. cbn.
+  induction l as [|[a x] l IH]; intros m c H Hin; [destruct Hin|]. simpl in H. apply NoDup_cons_iff in H. destruct H as [Hnin Hnd]. cbn.
   destruct Hin as [E|Hin].
   - injection E as -> ->. rewrite Nat.eqb_refl. reflexivity.
   - destruct (Nat.eqb a m) eqn:E; [|apply IH; assumption].
@@ -218,21 +220,21 @@ Qed.
 Lemma NoDup_keys_sort {A} : forall (l : list (nat * A)), NoDup (map fst l) -> NoDup (map fst (sort_desc l)).
 Proof.
   intros l H. assert (P : forall (x : nat * A) t, Permutation (insert_desc x t) (x :: t)).
-  { induction t as [|z t IHt]; cbn; [apply Permutation_refl|].
+  { induction t as [|z t IHt]; cbn [insert_desc]; [apply Permutation_refl|].
     destruct (Nat.ltb (fst x) (fst z)); [|apply Permutation_refl].
     eapply Permutation_trans; [apply perm_skip; exact IHt|apply perm_swap]. }
   assert (Q : Permutation (sort_desc l) l).
-  { induction l as [|x l IHl]; cbn; [apply Permutation_refl|].
-    eapply Permutation_trans; [apply P|]. apply perm_skip. apply IHl. inversion H; assumption. }
+  { induction l as [|x l IHl]; cbn [sort_desc]; [apply Permutation_refl|].
+    eapply Permutation_trans; [apply P|]. apply perm_skip. apply IHl. simpl in H. apply NoDup_cons_iff in H. apply H. }
   eapply Permutation_NoDup; [apply Permutation_sym; apply Permutation_map; exact Q|assumption].
 Qed.
 
 Lemma find_axis_sort {A} : forall (l : list (nat * A)) m, NoDup (map fst l) -> find_axis m (sort_desc l) = find_axis m l.
 Proof.
   intros l m H. destruct (find_axis m l) as [c|] eqn:E.
-  - apply find_axis_in; [apply NoDup_keys_sort; assumption|]. apply in_sort_desc. apply find_axis_some_in. assumption.
+  - apply find_axis_in; [apply NoDup_keys_sort; assumption|]. apply (proj2 (in_sort_desc l (m, c))). apply find_axis_some_in. assumption.
   - destruct (find_axis m (sort_desc l)) as [c|] eqn:E'; [|reflexivity].
-    apply find_axis_some_in in E'. apply in_sort_desc in E'. rewrite (find_axis_in l m c H E') in E. discriminate.
+    apply find_axis_some_in in E'. apply (proj1 (in_sort_desc l (m, c))) in E'. rewrite (find_axis_in l m c H E') in E. discriminate.
 Qed.
 
 Lemma NoDup_keys_enum {A} : forall (l : list A) j, NoDup (map fst (enum_from j l)).
@@ -243,7 +245,7 @@ Qed.
 
 Lemma NoDup_keys_filter {A} (Q : nat * A -> bool) : forall (l : list (nat * A)), NoDup (map fst l) -> NoDup (map fst (filter Q l)).
 Proof.
-  induction l as [|x l IH]; intros H; cbn; [constructor|]. inversion H as [|? ? Hnin Hnd]; subst.
+  induction l as [|x l IH]; intros H; cbn; [constructor|]. simpl in H. apply NoDup_cons_iff in H. destruct H as [Hnin Hnd].
   destruct (Q x); [|apply IH; assumption]. cbn. constructor; [|apply IH; assumption].
   intro Hin. apply Hnin. apply in_map_iff in Hin. destruct Hin as [p [E Hp]]. apply filter_In in Hp.
   apply in_map_iff. exists p. split; [assumption|apply Hp].
@@ -253,7 +255,7 @@ Lemma NoDup_keys_two_filters {A} (Q1 Q2 : nat * A -> bool) : forall (l : list (n
   (forall p, Q1 p = true -> Q2 p = false) -> NoDup (map fst l) ->
   NoDup (map fst (filter Q1 l ++ filter Q2 l)).
 Proof.
-  intros l Hdis. induction l as [|x l IH]; intros H; cbn; [constructor|]. inversion H as [|? ? Hnin Hnd]; subst.
+  intros l Hdis. induction l as [|x l IH]; intros H; cbn; [constructor|]. simpl in H. apply NoDup_cons_iff in H. destruct H as [Hnin Hnd].
   assert (Hn : ~ In (fst x) (map fst (filter Q1 l ++ filter Q2 l))).
   { intro Hin. apply Hnin. rewrite map_app in Hin. apply in_app_or in Hin.
     destruct Hin as [Hin|Hin]; apply in_map_iff in Hin; destruct Hin as [p [E Hp]]; apply filter_In in Hp;
@@ -342,10 +344,103 @@ Lemma knum_count (Q : comp -> bool) : forall a v idx, (a <= length idx)%nat ->
   (forall m c, (m < a)%nat -> nth_error idx m = Some c -> exists s, nth_error v m = Some s /\ is_pickb s = Q c) ->
   (knum v a + cnt_cint Q idx a = a)%nat.
 Proof.
-  induction a as [|a IH]; intros v idx Hl H; [reflexivity|].
+  induction a as [|a IH]; intros v idx Hl H; [destruct idx; reflexivity|].
   destruct idx as [|c idx]; [cbn in Hl; lia|]. destruct (H 0%nat c ltac:(lia) eq_refl) as [s [Hs Hq]].
   destruct v as [|s0 v]; [discriminate|]. cbn in Hs. injection Hs as ->.
   assert (IH' : (knum v a + cnt_cint Q idx a = a)%nat).
   { apply IH; [cbn in Hl; lia|]. intros m c' Hm Hc. apply (H (S m) c'); [lia|assumption]. }
   cbn [cnt_cint]. rewrite <- Hq. unfold knum in *. destruct s; cbn [firstn nkeeps is_pickb]; lia.
+Qed.
+
+(* ---- a Gather chain after a first stage, against NumPy's per-axis view ---- *)
+Definition gather_ops (adj : nat -> nat) (G : list (nat * comp)) : list op :=
+  map (fun p => OGather (adj (fst p)) (gix (snd p))) G.
+
+Definition is_advc (c : comp) : bool := is_tensor c || is_cint c.
+
+Lemma gather_sel_zrange_adv : forall d c, 0 <= d -> is_advc c = true -> gather_sel (zrange d) (gix c) = sel_of d c.
+Proof.
+  intros d c Hd Hc. destruct c as [i|a b s|i|l]; try discriminate.
+  - change (sel_of d (CInt i)) with (sel_of d (CT0 i)). change (gix (CInt i)) with (gix (CT0 i)). apply gather_sel_zrange; [assumption|reflexivity].
+  - apply gather_sel_zrange; [assumption|reflexivity].
+  - apply gather_sel_zrange; [assumption|reflexivity].
+Qed.
+
+Lemma np_index_build : forall idx shape, dims_nonneg shape -> (length idx <= length shape)%nat ->
+  np_index shape idx = build (fun m d => np_pt idx m (zrange d)) 0 shape.
+Proof. intros. rewrite np_index_pointwise0 by assumption. apply map_keeps_full_build. Qed.
+
+Definition stage_ok (shape : list Z) (idx : list comp) (adj : nat -> nat) (G : list (nat * comp)) (v1 : view) : Prop :=
+  forall p, In p G -> exists d,
+    nth_error shape (fst p) = Some d /\ nth_error idx (fst p) = Some (snd p) /\ is_advc (snd p) = true /\
+    nth_error v1 (fst p) = Some (Keep (zrange d)) /\ adj (fst p) = knum v1 (fst p).
+
+Lemma stage_ok_chain : forall shape idx adj G v1, stage_ok shape idx adj G v1 ->
+  forall p, In p G -> exists l, nth_error v1 (fst p) = Some (Keep l) /\ adj (fst p) = knum v1 (fst p).
+Proof. intros shape idx adj G v1 H p Hp. destruct (H p Hp) as [d [_ [_ [_ [H1 H2]]]]]. eexists. split; eassumption. Qed.
+
+Theorem chain_sound : forall shape idx adj G v1 v,
+  dims_nonneg shape -> (length idx <= length shape)%nat -> length v1 = length shape -> desc G ->
+  stage_ok shape idx adj G v1 ->
+  (forall m d s, nth_error shape m = Some d -> find_axis m G = None -> nth_error v1 m = Some s ->
+     np_pt idx m (zrange d) = Some s) ->
+  run_ops (gather_ops adj G) v1 = Some v -> np_index shape idx = Some v.
+Proof.
+  intros shape idx adj G v1 v Hd Hlen L1 HG Hst Hrest Hrun.
+  unfold gather_ops in Hrun. rewrite (chain_run adj G v1 HG (stage_ok_chain _ _ _ _ _ Hst)) in Hrun.
+  destruct (apply_g_nth G v1 v HG Hrun) as [L P].
+  rewrite np_index_build by assumption. apply build_of_nth; [congruence|].
+  intros m d Hm. cbn [Nat.add].
+  assert (Hmv : exists s, nth_error v m = Some s).
+  { destruct (nth_error v m) as [s|] eqn:E; [eexists; reflexivity|]. apply nth_error_None in E.
+    assert (m < length shape)%nat by (apply nth_error_Some; congruence). lia. }
+  destruct Hmv as [s Hs]. exists s. split; [|assumption].
+  rewrite P in Hs. destruct (find_axis m G) as [c|] eqn:Ef.
+  - apply find_axis_some_in in Ef. destruct (Hst _ Ef) as [d' [H1 [H2 [H3 [H4 _]]]]]. cbn [fst snd] in *.
+    rewrite Hm in H1. injection H1 as <-. rewrite H4 in Hs.
+    rewrite gather_sel_zrange_adv in Hs by (try assumption; eapply Hd; eassumption).
+    unfold np_pt. rewrite H2. rewrite zrange_length by (eapply Hd; eassumption). assumption.
+  - eapply Hrest; eassumption.
+Qed.
+
+Lemma nth_error_ext' {A} : forall (l1 l2 : list A), (forall m, nth_error l1 m = nth_error l2 m) -> l1 = l2.
+Proof.
+  induction l1 as [|x l1 IH]; intros l2 H.
+  - destruct l2 as [|y l2]; [reflexivity|]. specialize (H 0%nat). discriminate.
+  - destruct l2 as [|y l2]; [specialize (H 0%nat); discriminate|].
+    pose proof (H 0%nat) as H0. cbn in H0. injection H0 as ->. f_equal. apply IH. intros m. apply (H (S m)).
+Qed.
+
+Theorem chain_complete : forall shape idx adj G v1 v,
+  dims_nonneg shape -> (length idx <= length shape)%nat -> length v1 = length shape -> desc G ->
+  stage_ok shape idx adj G v1 ->
+  (forall m d s, nth_error shape m = Some d -> find_axis m G = None -> np_pt idx m (zrange d) = Some s ->
+     nth_error v1 m = Some s) ->
+  np_index shape idx = Some v -> run_ops (gather_ops adj G) v1 = Some v.
+Proof.
+  intros shape idx adj G v1 v Hd Hlen L1 HG Hst Hrest Hnp.
+  unfold gather_ops. rewrite (chain_run adj G v1 HG (stage_ok_chain _ _ _ _ _ Hst)).
+  rewrite np_index_build in Hnp by assumption. destruct (build_nth _ _ _ _ Hnp) as [Lv Pv].
+  assert (Hpt : forall m d, nth_error shape m = Some d -> np_pt idx m (zrange d) = nth_error v m).
+  { intros m d Hm. destruct (Pv m d Hm) as [s [H1 H2]]. cbn [Nat.add] in H1. congruence. }
+  destruct (apply_g_total G v1 HG) as [v' Hv'].
+  { intros p Hp. destruct (Hst p Hp) as [d [H1 [H2 [H3 [H4 _]]]]]. exists (zrange d).
+    destruct (Pv _ _ H1) as [s [Hs1 Hs2]]. cbn [Nat.add] in Hs1. exists s. split; [assumption|].
+    rewrite gather_sel_zrange_adv by (try assumption; eapply Hd; eassumption).
+    unfold np_pt in Hs1. rewrite H2 in Hs1. rewrite zrange_length in Hs1 by (eapply Hd; eassumption). assumption. }
+  rewrite Hv'. f_equal. destruct (apply_g_nth G v1 v' HG Hv') as [L P].
+  apply nth_error_ext'. intros m. rewrite P.
+  destruct (nth_error shape m) as [d|] eqn:Hm.
+  - destruct (find_axis m G) as [c|] eqn:Ef.
+    + apply find_axis_some_in in Ef. destruct (Hst _ Ef) as [d' [H1 [H2 [H3 [H4 _]]]]]. cbn [fst snd] in *.
+      rewrite Hm in H1. injection H1 as <-. rewrite H4.
+      rewrite gather_sel_zrange_adv by (try assumption; eapply Hd; eassumption).
+      rewrite <- (Hpt m d Hm). unfold np_pt. rewrite H2. rewrite zrange_length by (eapply Hd; eassumption). reflexivity.
+    + destruct (Pv m d Hm) as [s [Hs1 Hs2]]. cbn [Nat.add] in Hs1. rewrite Hs2. eapply Hrest; eassumption.
+  - assert (length shape <= m)%nat by (apply nth_error_None; assumption).
+    assert (find_axis m G = None) as ->.
+    { destruct (find_axis m G) as [c|] eqn:Ef; [|reflexivity]. apply find_axis_some_in in Ef.
+      destruct (Hst _ Ef) as [d' [H1 _]]. cbn [fst] in H1. congruence. }
+    assert (nth_error v1 m = None) as -> by (apply nth_error_None; lia).
+    symmetry. apply nth_error_None. lia.
 Qed.
